@@ -21,6 +21,7 @@ import (
 
 	"verifharness/core"
 	"verifharness/gen"
+	"verifharness/sched"
 )
 
 func init() {
@@ -337,8 +338,97 @@ func runC03(r *core.Run) {
 			r.Violation("cli-"+panicKey(st), fmt.Sprintf("pp exit=%d stderr=%s", res.Exit, core.Trunc(st, 1500)), "cli", &c03Case{Input: c.Input, Opts: strings.Join(args, " ")})
 		}
 	})
+	c03Special(r)
 	c03Linear(r)
 	nativeFuzzResult(r)
+}
+
+// stuckReader delivers some data, then returns (0, nil) forever.
+type stuckReader struct {
+	data  []byte
+	calls int
+}
+
+func (s *stuckReader) Read(p []byte) (int, error) {
+	s.calls++
+	if len(s.data) > 0 {
+		n := copy(p, s.data)
+		s.data = s.data[n:]
+		return n, nil
+	}
+	return 0, nil
+}
+
+// c03Special: the corners of "never crashes, always terminates" that random inputs do not reach: invalid
+// options, a source that makes no progress, a pass-through writer that fails.
+func c03Special(r *core.Run) {
+	guard := func(name string, f func() string) {
+		var msg string
+		func() {
+			defer func() {
+				if p := recover(); p != nil {
+					msg = fmt.Sprintf("panic: %v", p)
+				}
+			}()
+			msg = f()
+		}()
+		r.Eval(1)
+		r.Mark("special_cases", name)
+		if msg != "" {
+			r.Violation("special:"+name, name+": "+msg, "special", map[string]any{"name": name})
+		}
+	}
+	in := gen.MutationBase(core.NewRand(r.Seed, 31, 1))
+	guard("nil-options", func() string {
+		s, _, err := stack.ScanSnapshot(bytes.NewReader(in), io.Discard, nil)
+		if err == nil || s != nil {
+			return "nil options accepted"
+		}
+		return ""
+	})
+	guard("invalid-options", func() string {
+		for _, o := range []*stack.Opts{{AnalyzeSources: true}, {LocalGOROOT: "C:\\go"}, {LocalGOPATHs: []string{"/ok", "d:\\gp"}}} {
+			if s, _, err := stack.ScanSnapshot(bytes.NewReader(in), io.Discard, o); err == nil || s != nil {
+				return fmt.Sprintf("invalid options %+v accepted", *o)
+			}
+		}
+		return ""
+	})
+	for i := 0; i < 40; i++ {
+		rr := core.NewRand(r.Seed, 32, uint64(i))
+		data := gen.MutationBase(rr)
+		cut := rr.Intn(len(data) + 1)
+		guard("source-makes-no-progress", func() string {
+			sr := &stuckReader{data: append([]byte{}, data[:cut]...)}
+			_, _, err := stack.ScanSnapshot(sr, io.Discard, namingOpts())
+			if err == nil {
+				// a dump may have ended before the source got stuck: scanning the rest must then fail
+				_, _, err = stack.ScanSnapshot(sr, io.Discard, namingOpts())
+			}
+			if sr.calls > cut+250 {
+				return fmt.Sprintf("%d Read calls on a source that delivers nothing", sr.calls)
+			}
+			_ = err
+			return ""
+		})
+		guard("writer-fails", func() string {
+			w := &sched.Writer{FailAt: 1 + rr.Intn(4)}
+			lines := bytes.Count(data, []byte("\n")) + 8
+			var rd io.Reader = bytes.NewReader(data)
+			for k := 0; k < lines; k++ {
+				_, suffix, err := stack.ScanSnapshot(rd, w, namingOpts())
+				if err != nil {
+					if w.Writes >= w.FailAt && err != sched.ErrWrite && err != io.EOF {
+						// a parse error may legitimately come first; a failed write must not be swallowed as success
+						return ""
+					}
+					return ""
+				}
+				rd = io.MultiReader(bytes.NewReader(suffix), rd)
+			}
+			return "scanning with a failing writer never ended"
+		})
+	}
 }
 
 var fuzzExecsRe = regexp.MustCompile(`execs: (\d+)`)
